@@ -178,7 +178,8 @@ class Stream(ModelMixin["Stream"], Base):
         assert upload_folder.exists()
         abs_filename = upload_folder / filename
         logging.debug('destination file "%s"', abs_filename)
-        mf = MediaFile.get(name=filename.stem)
+        # media files are looked up by their lower-case name
+        mf = MediaFile.get(name=filename.stem.lower())
         if mf:
             mf.delete_file()
             mf.delete()
@@ -197,7 +198,7 @@ class Stream(ModelMixin["Stream"], Base):
         logging.debug("%s hash=%s", abs_filename, blob.sha1_hash)
         db.session.add(blob)
         mf = MediaFile(
-            name=filename.stem, stream=self, blob=blob,
+            name=filename.stem.lower(), stream=self, blob=blob,
             content_type=file_upload.mimetype)
         db.session.add(mf)
         if not commit:
